@@ -264,6 +264,7 @@ func (e *Engine) verifyFunc(fn *ssa.Function, fc *FuncContract) (rep *FuncReport
 	fr.run()
 	// postconditions at every return
 	var retConds []Term
+	coverTerms := make([][]Term, len(fc.Covers))
 	for ri, r := range fr.rets {
 		retConds = append(retConds, r.cond)
 		vars := map[string]*Value{}
@@ -332,6 +333,13 @@ func (e *Engine) verifyFunc(fn *ssa.Function, fc *FuncContract) (rep *FuncReport
 			}
 			fr.obligation("ensures", labelOr(en.Label, i+1), r.cond, t, en.Text)
 		}
+		for i, cv := range fc.Covers {
+			if t, err := env.EvalBool(cv.E); err == nil {
+				coverTerms[i] = append(coverTerms[i], And(r.cond, t))
+			} else if ri == 0 {
+				fr.contractError(cv, err)
+			}
+		}
 		if !fc.HasAsg && !fc.PkgInit {
 			// no frame: callers keep what they know about their mutexes across a call of this function, so it must
 			// return with every mutex that existed at entry as it found it
@@ -354,6 +362,11 @@ func (e *Engine) verifyFunc(fn *ssa.Function, fc *FuncContract) (rep *FuncReport
 	if len(retConds) > 0 {
 		o := &Obligation{Name: name + "#cover#some-return-reachable", Func: name, Kind: "cover", Label: "some-return-reachable", Reach: Or(retConds...), Goal: TTrue, Cover: true, Props: ce.props}
 		c.AddObl(o)
+		for i, cv := range fc.Covers {
+			// stated vacuity guard: the condition must not be refutable at every return (e.g. "the import can succeed")
+			oc := &Obligation{Name: name + "#cover#" + labelOr(cv.Label, i+1), Func: name, Kind: "cover", Label: labelOr(cv.Label, i+1), Reach: Or(coverTerms[i]...), Goal: TTrue, Cover: true, Props: ce.props, Comment: "satisfiable at some return: " + cv.Text}
+			c.AddObl(oc)
+		}
 	} else if rep.Unsupported == "" {
 		rep.Errors = append(rep.Errors, "no reachable return: contract vacuous or function always panics")
 	}
